@@ -55,73 +55,7 @@ Final == Rec[b].final
 
 Ok(c) == c.res = "ok"
 
-\* The answer does not depend on the order: it must be positive ...
-Query(c) ==
-    /\ c.k \in {"ca_list", "ca_show", "history", "status", "repo_stats",
-                "session_reset", "refresh_all", "sync_all", "republish",
-                "bg"}
-    /\ Ok(c)
-    /\ UNCHANGED <<roas, ent, pubs>>
-
-\* ... except where it depends on state this model does not track (the
-\* stage of a key roll, the existence of a publisher for a query).
-Untracked(c) ==
-    /\ c.k \in {"roll_init", "roll_activate", "pub_show"}
-    /\ UNCHANGED <<roas, ent, pubs>>
-
-RoaAdd(c) ==
-    /\ c.k = "roa_add"
-    /\ Ok(c) <=> c.r \notin roas[c.ca]
-    /\ roas' = IF Ok(c) THEN [roas EXCEPT ![c.ca] = @ \cup {c.r}] ELSE roas
-    /\ UNCHANGED <<ent, pubs>>
-
-RoaDel(c) ==
-    /\ c.k = "roa_del"
-    /\ Ok(c) <=> c.r \in roas[c.ca]
-    /\ roas' = IF Ok(c) THEN [roas EXCEPT ![c.ca] = @ \ {c.r}] ELSE roas
-    /\ UNCHANGED <<ent, pubs>>
-
-ChildAdd(c) ==
-    /\ c.k = "child_add"
-    /\ Ok(c) <=> ent[c.child] = "none"
-    /\ ent' = IF Ok(c) THEN [ent EXCEPT ![c.child] = c.ent] ELSE ent
-    /\ UNCHANGED <<roas, pubs>>
-
-ChildUpd(c) ==
-    /\ c.k = "child_upd"
-    /\ Ok(c) <=> ent[c.child] # "none"
-    /\ ent' = IF Ok(c) THEN [ent EXCEPT ![c.child] = c.ent] ELSE ent
-    /\ UNCHANGED <<roas, pubs>>
-
-ChildRm(c) ==
-    /\ c.k = "child_rm"
-    /\ Ok(c) <=> ent[c.child] # "none"
-    /\ ent' = IF Ok(c) THEN [ent EXCEPT ![c.child] = "none"] ELSE ent
-    /\ UNCHANGED <<roas, pubs>>
-
-\* RFC 6492 list query of the remote child: answered iff it is a child.
-UdList(c) ==
-    /\ c.k = "ud_list"
-    /\ Ok(c) <=> ent[c.child] # "none"
-    /\ UNCHANGED <<roas, ent, pubs>>
-
-PubAdd(c) ==
-    /\ c.k = "pub_add"
-    /\ Ok(c) <=> ~pubs[c.p].exists
-    /\ pubs' = IF Ok(c)
-               THEN [pubs EXCEPT ![c.p] = [exists |-> TRUE, objs |-> {}]]
-               ELSE pubs
-    /\ UNCHANGED <<roas, ent>>
-
-PubRm(c) ==
-    /\ c.k = "pub_rm"
-    /\ Ok(c) <=> pubs[c.p].exists
-    /\ pubs' = IF Ok(c)
-               THEN [pubs EXCEPT ![c.p] = [exists |-> FALSE, objs |-> {}]]
-               ELSE pubs
-    /\ UNCHANGED <<roas, ent>>
-
-\* An RFC 8181 delta: applied iff the publisher exists and every element
+\* An RFC 8181 delta is applied iff the publisher exists and every element
 \* matches the current objects (publish: URI free; update/withdraw: URI
 \* present with the quoted hash) -- all or nothing.
 ElemOk(objs, e) ==
@@ -134,27 +68,65 @@ DeltaApplied(objs, elems) ==
         new == { <<elems[i][2], elems[i][3]>> : i \in
                      { j \in 1..Len(elems) : elems[j][1] \in {"P", "U"} } }
     IN (objs \ gone) \cup new
-Publish(c) ==
-    /\ c.k = "publish"
-    /\ Ok(c) <=> /\ pubs[c.p].exists
-                 /\ \A i \in 1..Len(c.elems) : ElemOk(pubs[c.p].objs, c.elems[i])
-    /\ pubs' = IF Ok(c)
-               THEN [pubs EXCEPT ![c.p].objs = DeltaApplied(@, c.elems)]
-               ELSE pubs
-    /\ UNCHANGED <<roas, ent>>
 
-\* Purging a publisher's URI space always succeeds.
-DelFiles(c) ==
-    /\ c.k = "del_files"
-    /\ Ok(c)
-    /\ pubs' = [pubs EXCEPT ![c.p].objs = {}]
-    /\ UNCHANGED <<roas, ent>>
+\* Would the operation succeed in the current state?
+Succeeds(c) ==
+    CASE c.k = "roa_add"   -> c.r \notin roas[c.ca]
+      [] c.k = "roa_del"   -> c.r \in roas[c.ca]
+      [] c.k = "child_add" -> ent[c.child] = "none"
+      [] c.k \in {"child_upd", "child_rm", "ud_list"} -> ent[c.child] # "none"
+      [] c.k = "pub_add"   -> ~pubs[c.p].exists
+      [] c.k = "pub_rm"    -> pubs[c.p].exists
+      [] c.k = "publish"   ->
+            /\ pubs[c.p].exists
+            /\ \A i \in 1..Len(c.elems) : ElemOk(pubs[c.p].objs, c.elems[i])
+      [] OTHER -> TRUE
 
-Apply(c) ==
-    \/ Query(c) \/ Untracked(c)
-    \/ RoaAdd(c) \/ RoaDel(c)
-    \/ ChildAdd(c) \/ ChildUpd(c) \/ ChildRm(c) \/ UdList(c)
-    \/ PubAdd(c) \/ PubRm(c) \/ Publish(c) \/ DelFiles(c)
+\* Operations whose answer depends on state this model does not track (the
+\* stage of a key roll, a query for a publisher): any answer is taken.
+Untracked == {"roll_init", "roll_activate", "pub_show"}
+
+\* Operations this model knows; their answer does not depend on the order
+\* (queries, triggers of background work, RRDP session reset, purging a URI
+\* space) or is given by Succeeds.
+Known == {"roa_add", "roa_del", "child_add", "child_upd", "child_rm",
+          "ud_list", "pub_add", "pub_rm", "publish", "del_files",
+          "ca_list", "ca_show", "history", "status", "repo_stats",
+          "session_reset", "refresh_all", "sync_all", "republish", "bg"}
+
+\* A refusal that is possible although Succeeds holds, because it depends
+\* on background work whose timing is open: once B is no longer a child of
+\* A it loses its certificate as soon as its next synchronisation runs, and
+\* from then on a new ROA is refused as "not entitled".
+MayAlsoFail(c) == c.k = "roa_add" /\ c.ca = "B" /\ ent["B"] = "none"
+
+\* The recorded answer is the answer of a serial execution in this state.
+ResultOk(c) ==
+    \/ c.k \in Untracked
+    \/ c.k \in Known /\ IF Ok(c) THEN Succeeds(c)
+                      ELSE ~Succeeds(c) \/ MayAlsoFail(c)
+
+\* The state after the operation (unchanged if it was refused).
+Effect(c) ==
+    IF ~Ok(c) \/ c.k \in Untracked THEN UNCHANGED <<roas, ent, pubs>>
+    ELSE
+    /\ roas' = CASE c.k = "roa_add" -> [roas EXCEPT ![c.ca] = @ \cup {c.r}]
+                 [] c.k = "roa_del" -> [roas EXCEPT ![c.ca] = @ \ {c.r}]
+                 [] OTHER -> roas
+    /\ ent' = CASE c.k \in {"child_add", "child_upd"} ->
+                        [ent EXCEPT ![c.child] = c.ent]
+                [] c.k = "child_rm" -> [ent EXCEPT ![c.child] = "none"]
+                [] OTHER -> ent
+    /\ pubs' = CASE c.k = "pub_add" ->
+                        [pubs EXCEPT ![c.p] = [exists |-> TRUE, objs |-> {}]]
+                 [] c.k = "pub_rm" ->
+                        [pubs EXCEPT ![c.p] = [exists |-> FALSE, objs |-> {}]]
+                 [] c.k = "publish" ->
+                        [pubs EXCEPT ![c.p].objs = DeltaApplied(@, c.elems)]
+                 [] c.k = "del_files" -> [pubs EXCEPT ![c.p].objs = {}]
+                 [] OTHER -> pubs
+
+Apply(c) == ResultOk(c) /\ Effect(c)
 
 ----------------------------------------------------------------------------
 (* The search for a serial order.                                          *)
@@ -181,6 +153,43 @@ FinalMatches ==
     \* the certificate the parent publishes for B carries B's entitlement
     /\ Final.certB = ent["B"]
 
+\* For the report: the parts of the observed final state that differ from
+\* the model state of a complete serial order ("orphans": objects served in
+\* the URI space of a publisher the server does not know).
+Mismatch ==
+    (IF \E c \in CAs : ToSet(Final.roas[c]) # roas[c] THEN {"roas"} ELSE {})
+    \cup (IF \E c \in Children : Final.ent[c] # ent[c]
+          THEN {"children"} ELSE {})
+    \cup (IF \E p \in Pubs : Final.pubs[p].exists # pubs[p].exists
+          THEN {"pub-exists"} ELSE {})
+    \cup (IF \E p \in Pubs : ~Final.pubs[p].exists /\ Final.pubs[p].objs # <<>>
+          THEN {"orphans"}
+          ELSE IF \E p \in Pubs :
+                  { <<o[1], o[2]>> : o \in ToSet(Final.pubs[p].objs) } # pubs[p].objs
+               THEN {"pub-objects"} ELSE {})
+    \cup (IF Final.certB # ent["B"] THEN {"certB"} ELSE {})
+
+Diagnose ==
+    /\ b <= NScen
+    /\ done = 1..Len(Calls)
+    /\ ~FinalMatches
+    /\ PrintT(<<"FINAL_MISMATCH", Rec[b].id, ToJson(Mismatch)>>)
+    /\ FALSE
+    /\ UNCHANGED vars
+
+\* For the report: a state of the search from which no call can be ordered
+\* next; the calls that real-time order would allow but whose recorded
+\* answer the model does not give here.
+Ready == { i \in 1..Len(Calls) : i \notin done /\ ToSet(Calls[i].pred) \subseteq done }
+DeadEnd ==
+    /\ b <= NScen
+    /\ done # 1..Len(Calls)
+    /\ \A i \in Ready : ~ResultOk(Calls[i])
+    /\ PrintT(<<"DEAD_END", Rec[b].id, Cardinality(done),
+                ToJson({ Calls[i].k \o "=" \o Calls[i].res : i \in Ready })>>)
+    /\ FALSE
+    /\ UNCHANGED vars
+
 Finish ==
     /\ b <= NScen
     /\ done = 1..Len(Calls)
@@ -191,15 +200,15 @@ Finish ==
 Next ==
     \/ b <= NScen /\ \E i \in 1..Len(Calls) : Lin(i)
     \/ Finish
+    \/ Diagnose
+    \/ DeadEnd
 
 Spec == Init /\ [][Next]_vars
 
-\* Every scenario contributes Len(calls) + 1 levels; the search gets past
-\* scenario k iff scenario k is linearisable with a matching final state.
-TotalDepth ==
-    LET RECURSIVE Sum(_)
-        Sum(n) == IF n = 0 THEN 0 ELSE Sum(n - 1) + Len(Rec[n].calls) + 1
-    IN Sum(NScen) + 1
+\* Every scenario contributes Len(calls) + 1 levels (its record carries the
+\* running total in `cum`); the search gets past scenario k iff scenario k
+\* is linearisable with a matching final state.
+TotalDepth == Rec[NScen].cum + 1
 
 TraceAccepted ==
     LET d == TLCGet("stats").diameter IN
